@@ -40,6 +40,18 @@ UWmcFrom(sr, p, f, ordseq, lvl, w, we) ==
               Mul(sr, p, W(sr, w, we, v, TRUE), UWmcFrom(sr, p, Cond(f, v, TRUE), ordseq, i + 1, w, we)))
 UWmc(sr, p, f, ordseq, w, we) == UWmcFrom(sr, p, f, ordseq, 1, w, we)
 
+(* the count of a diagram smoothed over the first n levels: every one of those levels is tested on every path *)
+(* (the weights of both branches are paid even where the function ignores the variable); below level n the    *)
+(* diagram is the unsmoothed one                                                                               *)
+RECURSIVE SWmcFrom(_, _, _, _, _, _, _, _)
+SWmcFrom(sr, p, f, ordseq, lvl, n, w, we) ==
+  IF lvl > n THEN UWmcFrom(sr, p, f, ordseq, lvl, w, we)
+  ELSE LET v == ordseq[lvl] IN
+       Add(sr, p,
+           Mul(sr, p, W(sr, w, we, v, FALSE), SWmcFrom(sr, p, Cond(f, v, FALSE), ordseq, lvl + 1, n, w, we)),
+           Mul(sr, p, W(sr, w, we, v, TRUE), SWmcFrom(sr, p, Cond(f, v, TRUE), ordseq, lvl + 1, n, w, we)))
+SWmc(sr, p, f, ordseq, n, w, we) == SWmcFrom(sr, p, f, ordseq, 1, n, w, we)
+
 (* integer components of x at exponent e (the recorder logs value * 8^e) *)
 Comps(x, e) == AtExp(x, e).c
 Normalised(sr, p, w, we, nv) ==
